@@ -30,7 +30,7 @@ func RenderNoisy(t *rapid.T, ds []ref.Directive) string {
 		return rapid.SampledFrom([]string{"", "", "", "", " ", "\t", "  "}).Draw(t, "trail")
 	}
 	comment := func() string {
-		c := rapid.SampledFrom([]string{"# comment", "* Heading", "// note", "#", "*", "//", "# 2020-01-01 open Assets:X", "* \"quoted\"", "#\ttab", "// ünï"}).Draw(t, "comment")
+		c := rapid.SampledFrom([]string{"# comment", "* Heading", "// note", "#", "*", "//", "# 2020-01-01 open Assets:X", "* \"quoted\"", "#\ttab", "// ünï", "# 50% of rent", "* 100%s %d %v %%", "// \\n \\t \\", "# \"quoted\" 'text'", "#!shebang", "* @accrue monthly", "// include \"x\""}).Draw(t, "comment")
 		return c + trail()
 	}
 	gap := func(needBlank bool) {
@@ -119,7 +119,7 @@ func RenderNoisy(t *rapid.T, ds []ref.Directive) string {
 func Mutate(t *rapid.T, s string) string {
 	bs := []byte(s)
 	n := rapid.IntRange(1, 3).Draw(t, "nEdits")
-	hostile := []string{"\x00", "\xff", "\xc3", "\xf0\x9f\x98", "\"", "@", "@accrue ", "@performance(", "include \"", "\r", "\n\n", "\t", "$", "$x", ":", "-", ".", "//", "*", "#", "0000-00-00", "9999-99-99 open A", "balance", "price", "𝔘", " ", " ", "１"}
+	hostile := []string{"\xef\xbb\xbf", "\x00", "\xff", "\xc3", "\xf0\x9f\x98", "\"", "@", "@accrue ", "@performance(", "include \"", "\r", "\n\n", "\t", "$", "$x", ":", "-", ".", "//", "*", "#", "0000-00-00", "9999-99-99 open A", "balance", "price", "𝔘", " ", " ", "１"}
 	for i := 0; i < n; i++ {
 		if len(bs) == 0 {
 			bs = append(bs, rapid.SampledFrom(hostile).Draw(t, "ins")...)
